@@ -296,7 +296,7 @@ func (c *Config) getField(name string, idx int, opts *options) (value, Error) {
 	}
 
 	if v == nil {
-		return nil, raiseMissing(c, p.String())
+		return nil, raiseMissing(c, p.dotted())
 	}
 	return v, nil
 }
